@@ -57,6 +57,7 @@ def handle : List String → String
     match unescapeRef (cps s) with
     | some c => s!"some {c}"
     | none => "none"
+  | ["unescapeall", s] => showL (unescapeAll (cps s))
   | ["cp1252", b] =>
     match b.toNat?.bind cp1252At with
     | some c => s!"some {c}"
